@@ -3135,3 +3135,11 @@ V(id='c09-iv-complex-without-mode', prop='C09', file='mpmath/ctx_iv.py',
 V(id='c09-complex-operand-through-constructor', prop='C09', file='mpmath/ctx_mp_python.py',
   old="        if isinstance(x, complex_types): return cls.context.convert(x)\n", new="        if isinstance(x, complex_types): return cls.context.mpc(x)\n",
   expect='fire:V-R7:mpf_convert_rhs')
+
+# ---- C08 W-R7 (second hunt; fix 8f543a9) ----
+V(id='c08-exponent-through-str', prop='C08', file='mpmath/libmp/libmpf.py',
+  old='    if exponent >= 0: return sign + digits + "e+" + numeral(exponent)\n', new='    if exponent >= 0: return sign + digits + "e+" + str(exponent)\n',
+  expect='fire:W-R7:to_str')
+V(id='c08-exponent-through-percent', prop='C08', file='mpmath/libmp/libmpf.py',
+  old='    if exponent < 0: return sign + digits + "e" + numeral(exponent)\n', new='    if exponent < 0: return sign + digits + ("e%i" % exponent)\n',
+  expect='fire:W-R7:to_str')
